@@ -153,12 +153,12 @@ impl IOCtx {
         }
         // Check if the temp file already exists and has the same content
         if export_file.as_path().exists() {
-            let current_content = fs::read_to_string(&export_file)
+            let current_content = fs::read(&export_file)
                 .change_context_lazy(|| make_error!(self, PpErrorKind::ReadFile))
                 .attach_printable_lazy(|| {
                     format!("could not read existing temp file: `{export_file}`")
                 })?; // early return because if we can't read it, we probably can't write it either
-            if current_content == contents {
+            if current_content == contents.as_bytes() {
                 log::debug!("temp file already exists with same content, skipping");
                 return Ok(());
             }
